@@ -489,7 +489,7 @@ func tokens(text string) (string, bool) {
 	fieldTok := h.Join(calls)
 	if raw > 0 {
 		if len(calls) > 0 {
-			fieldTok = "mixed:" + fieldTok
+			return "", false
 		} else {
 			fieldTok = "raw"
 		}
@@ -553,9 +553,10 @@ func tokens(text string) (string, bool) {
 		fill, fillv, h.B(!stmt.TimeAscending()), stmt.Limit, stmt.Offset), true
 }
 
-var aggs = []string{"count", "sum", "mean", "min", "max", "first", "last"}
+var aggs = []string{"count", "sum", "min", "max", "first", "last"}
+var aggsMean = []string{"count", "sum", "mean", "mean", "min", "max", "first", "last"}
 
-func genQuery(r *h.Rand, tspan int64) qspec {
+func genQuery(r *h.Rand, tspan int64, withMean bool) qspec {
 	var q qspec
 	agg := r.Chance(0.7)
 	if agg {
@@ -564,18 +565,25 @@ func genQuery(r *h.Rand, tspan int64) qspec {
 			n = int(r.Range(2, 3))
 		}
 		for i := 0; i < n; i++ {
-			q.calls = append(q.calls, h.Pick(r, aggs))
+			if withMean {
+				q.calls = append(q.calls, h.Pick(r, aggsMean))
+			} else {
+				q.calls = append(q.calls, h.Pick(r, aggs))
+			}
 		}
 	}
 	if r.Chance(0.75) {
 		q.hasMin = true
-		q.tmin = r.Range(-5, tspan/2)
+		q.tmin = r.Range(-5, tspan/3)
 		q.minIncl = r.Chance(0.7)
 	}
 	if r.Chance(0.75) {
 		q.hasMax = true
-		q.tmax = r.Range(tspan/3, tspan+10)
+		q.tmax = r.Range(tspan/2, tspan+10)
 		q.maxIncl = r.Chance(0.3)
+		if r.Chance(0.04) {
+			q.tmax = q.tmin - r.Range(0, 3) // empty or one-instant range
+		}
 	}
 	if agg && r.Chance(0.7) {
 		q.dur = h.Pick(r, []int64{1, 2, 5, 7, 10, 10, 20, 50})
@@ -587,8 +595,8 @@ func genQuery(r *h.Rand, tspan int64) qspec {
 		if !(q.hasMin && q.hasMax) {
 			if r.Chance(0.8) {
 				q.hasMin, q.hasMax = true, true
-				q.tmin, q.minIncl = r.Range(-5, tspan/2), true
-				q.tmax, q.maxIncl = r.Range(tspan/3, tspan+10), false
+				q.tmin, q.minIncl = r.Range(-5, tspan/3), true
+				q.tmax, q.maxIncl = r.Range(tspan/2, tspan+10), false
 			}
 		}
 		switch r.Intn(6) {
@@ -612,8 +620,8 @@ func genQuery(r *h.Rand, tspan int64) qspec {
 	if r.Chance(0.35) {
 		q.limit = r.Range(1, 5)
 	}
-	if r.Chance(0.25) {
-		q.offset = r.Range(1, 4)
+	if r.Chance(0.2) {
+		q.offset = r.Range(1, 3)
 	}
 	// a few statements the compiler must reject
 	if r.Chance(0.03) {
@@ -635,8 +643,18 @@ func genCase(r *h.Rand, nq int) []string {
 	var ops []string
 	isInt := r.Chance(0.6)
 	nser := int(r.Range(1, 3))
-	if r.Chance(0.1) {
+	if r.Chance(0.05) {
 		nser = 0
+	}
+	// mean(): every partial mean the engine forms (per series, per merge level) is exact
+	// when every value is a multiple of lcm(1..16) and the case holds at most 16 points;
+	// then the engine's re-aggregated mean is the plain mean, bit for bit
+	withMean := r.Chance(0.3)
+	unit := int64(840)
+	budget := 1000
+	if withMean {
+		unit = 720720
+		budget = 16
 	}
 	tspan := h.Pick(r, []int64{20, 50, 100, 100, 200})
 	hosts := []string{"a", "b", "c"}
@@ -645,7 +663,14 @@ func genCase(r *h.Rand, nq int) []string {
 	// container/heap detail no semantics fixes
 	used := map[int64]bool{}
 	for s := 0; s < nser; s++ {
-		n := int(r.Range(0, 14))
+		n := int(r.Range(1, 14))
+		if r.Chance(0.08) {
+			n = 0
+		}
+		if n > budget {
+			n = budget
+		}
+		budget -= n
 		var times []int64
 		for tries := 0; len(times) < n && tries < 200; tries++ {
 			t := r.Range(0, tspan)
@@ -663,7 +688,7 @@ func genCase(r *h.Rand, nq int) []string {
 		if isInt {
 			vals := make([]int64, n)
 			for i := range vals {
-				vals[i] = 840 * r.Range(-5, 20) // multiples of lcm(1..8): per-series means stay exact
+				vals[i] = unit * r.Range(-5, 20)
 				if r.Chance(0.2) && i > 0 {
 					vals[i] = vals[i-1]
 				}
@@ -672,9 +697,9 @@ func genCase(r *h.Rand, nq int) []string {
 		} else {
 			vals := make([]string, n)
 			for i := range vals {
-				f := 840 * float64(r.Range(-5, 20))
+				f := float64(unit) * float64(r.Range(-5, 20))
 				if r.Chance(0.3) {
-					f += 840 * h.Pick(r, []float64{0.5, 0.25, 0.125})
+					f *= h.Pick(r, []float64{0.5, 0.25, 0.125})
 				}
 				vals[i] = h.Hex64(math.Float64bits(f))
 			}
@@ -683,7 +708,7 @@ func genCase(r *h.Rand, nq int) []string {
 		ops = append(ops, line)
 	}
 	for i := 0; i < nq; i++ {
-		q := genQuery(r, tspan)
+		q := genQuery(r, tspan, withMean)
 		text := q.text()
 		toks, ok := tokens(text)
 		if !ok {
